@@ -1056,6 +1056,7 @@ func runShard(r *vk.Run, j job, deadline time.Time) shardOutcome {
 // ---- TestCheck ----------------------------------------------------------------------------------
 
 func TestCheck(t *testing.T) {
+	vk.UseT(t)
 	if js := os.Getenv("C17_JOB"); js != "" {
 		var j job
 		if err := json.Unmarshal([]byte(js), &j); err != nil {
